@@ -70,6 +70,7 @@ func isstatus(e error) bool             { return e != nil }
 func lastrand() int64                   { return 0 }
 func ncalls(name string) int            { return len(name) }
 func lastval(name string) Z             { return Z(len(name)) }
+func lastret(name string) Z             { return Z(len(name)) }
 func haskey[K comparable, V any](m map[K]V, k K) bool { _, ok := m[k]; return ok }
 func statuscode(e error) uint32         { return 0 }
 `
@@ -657,6 +658,21 @@ func generateSpecFile(p *packages.Package, pc *PkgContracts) (string, error) {
 			}
 			ps = append(ps, callArgParams(p, body, pos, c.Text)...)
 			sort.Slice(ps, func(i, j int) bool { return ps[i].Name < ps[j].Name })
+			g.emitClause(c, prefix, ps)
+		}
+		for _, c := range fc.RetAsrt {
+			pos := findReturnSite(body, c.Site)
+			if pos == token.NoPos {
+				fmt.Fprintf(os.Stderr, "gcv: %s: func %s has no %s, clause dropped\n", pc.File, fc.Key, c.Site)
+				continue
+			}
+			pp := p.Fset.Position(pos)
+			c.SitePos = fmt.Sprintf("%s:%d", pp.Filename, pp.Offset)
+			sc := p.Types.Scope().Innermost(pos)
+			ps, err := g.clauseParams(c.Text, sc, pos, sig, fmt.Sprintf("%s:%d", pc.File, c.Line))
+			if err != nil {
+				return "", err
+			}
 			g.emitClause(c, prefix, ps)
 		}
 	}
